@@ -9,6 +9,7 @@ from harness import fakes3
 
 
 PROGRESS_YIELD = [False]     # set per run by library._run: on_progress is a scheduling point
+QUEUED_YIELD = [False]       # idem for on_queued
 
 
 class RecordingSubscriber:
@@ -52,6 +53,8 @@ class RecordingSubscriber:
     def on_queued(self, future, **kw):
         self.I.log('on_queued', sub=self.name, t=future.meta.transfer_id)
         self.events.append(('queued',))
+        if QUEUED_YIELD[0]:
+            self.I.sched.yield_point('on_queued')       # a user callback takes time: other threads run meanwhile
         if self.provide_size is not None:
             future.meta.provide_transfer_size(self.provide_size)
         self._script(future, self.on_queued_script)
